@@ -962,7 +962,7 @@ func C04() *check.Property {
 		Title:    "Each operator computes its documented function of the input sequence",
 		Patterns: cat(CorePatterns, PluginPkgs, IOPluginPkgs, []string{PromPkg}, RatePkgs),
 		Scope:    []string{ro},
-		Rules:    []check.Rule{ruleAdapter(), ruleAlias(), rulePipe(), ruleNoPostDeliveryMutation(), ruleDeadEmission(), ruleStateLevel(), ruleTerminalPropagation(), ruleObservableParamUsed(), ruleContextlessDelegates(), ruleBodyTerminates(), ruleLateEmission(), ruleConsumeFlag(), rulePublishBeforeEmit(), ruleTerminalCallAgreement(), ruleTimerDequeueCoupled(), ruleQueueFIFO(), ruleIncorporateBeforeDecide(), ruleAccessGuarded()},
+		Rules:    []check.Rule{ruleAdapter(), ruleAlias(), rulePipe(), ruleNoPostDeliveryMutation(), ruleDeadEmission(), ruleStateLevel(), ruleTerminalPropagation(), ruleObservableParamUsed(), ruleContextlessDelegates(), ruleBodyTerminates(), ruleLateEmission(), ruleConsumeFlag(), rulePublishBeforeEmit(), ruleTerminalCallAgreement(), ruleTimerDequeueCoupled(), ruleQueueFIFO(), ruleIncorporateBeforeDecide(), ruleAccessGuarded(), ruleGoSourceTerminates()},
 		Explanation: "Narrow structural claim. The values each operator computes are NOT decided (no executable specification of ~150 operators is derivable from the source). Four clauses of the property are visible in the code's shape and are decided: " +
 			"(ADAPTER) plain / indexed / context-aware variants that delegate through a literal are pure adapters — user function called once, only the adapter's own parameters passed, the right context returned — hence observationally identical to the base form; " +
 			"(ALIAS) aliases forward every parameter exactly once; (PIPE) the 50 typed PipeN/PipeOpN apply their operators in order, so a chain is the composition of its parts; " +
@@ -984,4 +984,119 @@ func identDeclNode(m *model.Model, sc *model.SC, v *types.Var) ast.Node {
 		return out == nil
 	})
 	return out
+}
+
+// GO-SOURCE-TERMINATES: a source that produces from a goroutine ends its output when the goroutine ends.
+func ruleGoSourceTerminates() check.Rule {
+	return check.Rule{
+		Name:       "GO-SOURCE-TERMINATES",
+		ExtraScope: IOPluginPkgs,
+		Doc:        "in a creation operator (no upstream subscription) whose notifications are sent from a goroutine it starts, every path on which that goroutine ends passes a terminal notification to the destination (sent directly, deferred, or through a local closure) — except the paths that leave through a receive from (or a range over) a channel that only the operator's own teardown closes, i.e. the exits that unsubscription itself causes. A request that succeeded, a channel the caller closed or a watcher that stopped otherwise leave the subscriber open for ever after the last value",
+		Run: func(c *check.Ctx) {
+			m := c.M
+			n := 0
+			for _, sc := range m.SCs {
+				if len(sc.SubSites) > 0 || len(sc.Gos) == 0 || len(sc.Unknown) > 0 {
+					continue
+				}
+				armed := c.Armed(sc)
+				info := sc.Pkg.TypesInfo
+				ra := analyseRelease(m, sc)
+				for gi, g := range sc.Gos {
+					var lit *ast.FuncLit
+					if l, ok := ast.Unparen(g.Stmt.Call.Fun).(*ast.FuncLit); ok {
+						lit = l
+					} else {
+						for _, a := range g.Stmt.Call.Args {
+							if l, ok := ast.Unparen(a).(*ast.FuncLit); ok {
+								lit = l
+							}
+						}
+					}
+					if lit == nil {
+						continue
+					}
+					inside := func(nd ast.Node) bool { return nd != nil && lit.Pos() <= nd.Pos() && nd.End() <= lit.End() }
+					onward := map[ast.Node]bool{}
+					deferredTerminal := false
+					emits := 0
+					for _, e := range sc.Emits {
+						if !e.ToDest || !inside(e.Node) {
+							continue
+						}
+						emits++
+						if e.Kind == model.EmitNext {
+							continue
+						}
+						if e.Deferred {
+							deferredTerminal = true
+						}
+						onward[e.Node] = true
+						for _, call := range e.Stack {
+							if inside(call) {
+								onward[call] = true
+							}
+						}
+					}
+					if emits == 0 {
+						continue
+					}
+					n++
+					key := fmt.Sprintf("%s/go#%d/terminates", sc, gi+1)
+					teardownClosed := func(ch ast.Expr) bool {
+						if nd := resNode(info, nil, ch); nd != "" && ra.released[nd] {
+							return true
+						}
+						if sel, ok := ast.Unparen(ch).(*ast.SelectorExpr); ok {
+							if id, ok := ast.Unparen(sel.X).(*ast.Ident); ok {
+								if o := objOf(info, id); o != nil && externalCloserIn(m, sc, o) {
+									return true
+								}
+							}
+						}
+						return false
+					}
+					// a range over a teardown-closed channel ends because of the unsubscription (go/cfg shows the ranged
+					// expression as a node of its own)
+					rangedClosed := map[ast.Node]bool{}
+					ast.Inspect(lit.Body, func(x ast.Node) bool {
+						if rs, ok := x.(*ast.RangeStmt); ok && teardownClosed(rs.X) {
+							rangedClosed[rs.X] = true
+						}
+						return true
+					})
+					pass := deferredTerminal || everyPathPasses(lit.Body, func(nd ast.Node) bool {
+						found := false
+						if rangedClosed[nd] {
+							return true
+						}
+						ast.Inspect(nd, func(x ast.Node) bool {
+							if x == nil || found {
+								return false
+							}
+							if onward[x] {
+								found = true
+							}
+							if l, ok := x.(*ast.FuncLit); ok && l != lit {
+								return false
+							}
+							if u, ok := x.(*ast.UnaryExpr); ok && u.Op == token.ARROW && teardownClosed(u.X) {
+								found = true
+							}
+							return !found
+						})
+						return found
+					})
+					if pass {
+						if armed {
+							c.OK(key, g.Pos, "every way this producing goroutine ends sends a terminal notification (or is caused by the unsubscription)")
+						}
+					} else {
+						c.Report(armed, key, g.Pos, "the goroutine that produces this source's notifications can end without sending Error or Complete to the destination: the subscriber stays open for ever after the last value")
+					}
+				}
+			}
+			c.Inc("producing_goroutines", n)
+		},
+	}
 }
